@@ -4,6 +4,7 @@ import Pixman.Lemmas.Extent
 import Pixman.Lemmas.ExtentPad
 import Pixman.Lemmas.ExtentAlloc
 import Pixman.Props.C04Core
+import Pixman.Gen.BilinearSplit
 /-! C04 — no access outside the described pixel storage: property theorems about the request
     analysis (`analyze_extent`, the COVER_CLIP flags, the 16.16 range test), the coordinate walks
     they license, `pad_repeat_get_scanline_bounds`, and the allocation size arithmetic.
@@ -716,5 +717,176 @@ example : createBits 18446744073709551615 32 10 10 = .ok 40 400 ∧ createBits 1
     createBits 18446744073709551615 8 16 (-1) = .null ∧ createBits 18446744073709551615 0 16 2 = .crash := by decide
 
 end Alloc
+
+/-! ### S10: the NORMAL-repeat split of the scaled-bilinear main loop never reads past the row -/
+
+section BilinearSplit
+open Pixman.Lemmas.ExtentPad
+
+/-- the regenerated `num_pixels` expressions of pixman-inlines.h are the model's (a dropped
+    `- pixman_fixed_e` breaks these) -/
+theorem wrapNumPixels_bridge (swf vx ux : Int) :
+    Pixman.Gen.BilinearSplit.wrapNumPixels swf vx ux = wrapNumPixels swf vx ux := by
+  unfold Pixman.Gen.BilinearSplit.wrapNumPixels wrapNumPixels fixedE
+  congr 2
+theorem plainNumPixels_bridge (swf vx ux : Int) :
+    Pixman.Gen.BilinearSplit.plainNumPixels swf vx ux = plainNumPixels swf vx ux := by
+  unfold Pixman.Gen.BilinearSplit.plainNumPixels plainNumPixels fixedE fixed1
+  congr 2
+
+/-- what a call of the scanline function may touch: a plain segment reads the pair `[x], [x+1]` of the
+    row for every pixel, so it needs `0 ≤ x` and `x + 1 ≤ src_width - 1`; a wrap segment reads the
+    two-pixel buffer, so it needs pair index 0 -/
+def SegSafe (srcW ux : Int) : Seg → Prop
+  | .plain vx n => 0 ≤ n ∧ ∀ k : Int, 0 ≤ k → k < n →
+      0 ≤ fixedToInt (vx + k * ux) ∧ fixedToInt (vx + k * ux) + 1 ≤ srcW - 1
+  | .wrap f n => 0 ≤ n ∧ ∀ k : Int, 0 ≤ k → k < n → fixedToInt (f + k * ux) = 0
+
+def segNum : Seg → Int
+  | .plain _ n => n
+  | .wrap _ n => n
+
+/-- (S10) the "normal scanline composite" segment: at least one pixel, never more than remain, and for
+    EVERY pixel of it the pair `[x], [x+1]` lies inside the row: `x + 1 ≤ src_width - 1` -/
+theorem plain_segment_in_row (srcW ux vx remain : Int) (hux : 0 < ux)
+    (hv : 0 ≤ vx ∧ vx < srcW * 65536) (hne : fixedToInt vx ≠ srcW - 1) (hr : 0 < remain) :
+    1 ≤ clampNum (plainNumPixels (srcW * 65536) vx ux) remain ∧
+    clampNum (plainNumPixels (srcW * 65536) vx ux) remain ≤ remain ∧
+    ∀ k : Int, 0 ≤ k → k < clampNum (plainNumPixels (srcW * 65536) vx ux) remain →
+      0 ≤ fixedToInt (vx + k * ux) ∧ fixedToInt (vx + k * ux) + 1 ≤ srcW - 1 := by
+  unfold fixedToInt at hne
+  have hN : 0 ≤ srcW * 65536 - fixed1 - vx - fixedE := by unfold fixed1 fixedE; omega
+  unfold plainNumPixels clampNum
+  rw [tdiv_nonneg_eq _ _ hN]
+  have hq := ediv_bounds (srcW * 65536 - fixed1 - vx - fixedE) ux hux
+  have hq0 : 0 ≤ (srcW * 65536 - fixed1 - vx - fixedE) / ux := Int.ediv_nonneg hN (by omega)
+  generalize (srcW * 65536 - fixed1 - vx - fixedE) / ux = q at *
+  unfold fixed1 fixedE at hq
+  refine ⟨by split <;> omega, by split <;> omega, ?_⟩
+  intro k k0 k1
+  have hk : k ≤ q := by split at k1 <;> omega
+  have h1 : k * ux ≤ q * ux := Int.mul_le_mul_of_nonneg_right hk (by omega)
+  have h2 : 0 ≤ k * ux := Int.mul_nonneg k0 (by omega)
+  unfold fixedToInt
+  generalize k * ux = ku at *
+  generalize q * ux = qu at *
+  omega
+
+/-- the "wrap around part": every pixel of it has pair index 0 in the two-pixel buffer -/
+theorem wrap_segment_in_buffer (srcW ux vx remain : Int) (hux : 0 < ux)
+    (hv : 0 ≤ vx ∧ vx < srcW * 65536) (he : fixedToInt vx = srcW - 1) (hr : 0 < remain) :
+    1 ≤ clampNum (wrapNumPixels (srcW * 65536) vx ux) remain ∧
+    clampNum (wrapNumPixels (srcW * 65536) vx ux) remain ≤ remain ∧
+    ∀ k : Int, 0 ≤ k → k < clampNum (wrapNumPixels (srcW * 65536) vx ux) remain →
+      fixedToInt (fixedFrac vx + k * ux) = 0 := by
+  unfold fixedToInt at he
+  have hN : 0 ≤ srcW * 65536 - vx - fixedE := by unfold fixedE; omega
+  unfold wrapNumPixels clampNum
+  rw [tdiv_nonneg_eq _ _ hN]
+  have hq := ediv_bounds (srcW * 65536 - vx - fixedE) ux hux
+  have hq0 : 0 ≤ (srcW * 65536 - vx - fixedE) / ux := Int.ediv_nonneg hN (by omega)
+  generalize (srcW * 65536 - vx - fixedE) / ux = q at *
+  unfold fixedE at hq
+  refine ⟨by split <;> omega, by split <;> omega, ?_⟩
+  intro k k0 k1
+  have hk : k ≤ q := by split at k1 <;> omega
+  have h1 : k * ux ≤ q * ux := Int.mul_le_mul_of_nonneg_right hk (by omega)
+  have h2 : 0 ≤ k * ux := Int.mul_nonneg k0 (by omega)
+  unfold fixedToInt fixedFrac
+  generalize k * ux = ku at *
+  generalize q * ux = qu at *
+  omega
+
+theorem normVx_range (vx srcW : Int) (hw : 0 < srcW) : 0 ≤ normVx vx (srcW * 65536) ∧ normVx vx (srcW * 65536) < srcW * 65536 := by
+  obtain ⟨r, hr, h0, h1⟩ := Pixman.Props.C04Core.repeat_in_range .normal vx (srcW * 65536) (by omega) (by decide)
+  unfold normVx; rw [hr]; exact ⟨h0, h1⟩
+
+/-- one iteration of the loop: every call it makes is safe, it consumes at least one pixel and never
+    more than remain -/
+theorem normalStep_safe (srcW ux vx remain : Int) (hw : 0 < srcW) (hux : 0 < ux) (hr : 0 < remain) :
+    (∀ sg ∈ (normalStep srcW ux vx remain).1, SegSafe srcW ux sg) ∧
+    0 ≤ (normalStep srcW ux vx remain).2.2 ∧ (normalStep srcW ux vx remain).2.2 < remain ∧
+    ((normalStep srcW ux vx remain).1.map segNum).sum + (normalStep srcW ux vx remain).2.2 = remain := by
+  have hv := normVx_range vx srcW hw
+  unfold normalStep
+  simp only
+  generalize normVx vx (srcW * 65536) = v at *
+  by_cases he : fixedToInt v = srcW - 1
+  · obtain ⟨w1, w2, w3⟩ := wrap_segment_in_buffer srcW ux v remain hux hv he hr
+    simp only [he, if_true]
+    generalize clampNum (wrapNumPixels (srcW * 65536) v ux) remain = n at *
+    have hv2 := normVx_range (v + n * ux) srcW hw
+    generalize normVx (v + n * ux) (srcW * 65536) = v2 at *
+    by_cases hc : fixedToInt v2 ≠ srcW - 1 ∧ remain - n > 0
+    · obtain ⟨p1, p2, p3⟩ := plain_segment_in_row srcW ux v2 (remain - n) hux hv2 hc.1 hc.2
+      rw [if_pos hc]
+      generalize clampNum (plainNumPixels (srcW * 65536) v2 ux) (remain - n) = m at *
+      dsimp only
+      refine ⟨?_, by omega, by omega, ?_⟩
+      · intro sg hsg
+        simp only [List.cons_append, List.nil_append, List.mem_cons, List.mem_nil_iff, or_false] at hsg
+        rcases hsg with rfl | rfl
+        · exact ⟨by omega, w3⟩
+        · exact ⟨by omega, p3⟩
+      · simp only [List.cons_append, List.nil_append, List.map_cons, List.map_nil, List.sum_cons, List.sum_nil, segNum]; omega
+    · rw [if_neg hc]
+      dsimp only
+      refine ⟨?_, by omega, by omega, ?_⟩
+      · intro sg hsg
+        simp only [List.mem_cons, List.mem_nil_iff, or_false] at hsg
+        subst hsg
+        exact ⟨by omega, w3⟩
+      · simp only [List.map_cons, List.map_nil, List.sum_cons, List.sum_nil, segNum]; omega
+  · simp only [he, if_false]
+    have hc : fixedToInt v ≠ srcW - 1 ∧ remain > 0 := ⟨he, hr⟩
+    obtain ⟨p1, p2, p3⟩ := plain_segment_in_row srcW ux v remain hux hv he hr
+    rw [if_pos hc]
+    generalize clampNum (plainNumPixels (srcW * 65536) v ux) remain = m at *
+    dsimp only
+    refine ⟨?_, by omega, by omega, ?_⟩
+    · intro sg hsg
+      simp only [List.nil_append, List.mem_cons, List.mem_nil_iff, or_false] at hsg
+      subst hsg
+      exact ⟨by omega, p3⟩
+    · simp only [List.nil_append, List.map_cons, List.map_nil, List.sum_cons, List.sum_nil, segNum]; omega
+
+/-- (S10) the whole scanline, any start `vx`, any width: EVERY call of the scanline function made by the
+    NORMAL-repeat loop reads only inside what it is given — plain segments satisfy `x + 1 ≤ src_width - 1`
+    for every pixel, wrap segments stay at pair index 0 of the two-pixel buffer — and with enough fuel
+    (`width` iterations) the calls cover exactly `width` pixels. -/
+theorem normalLoop_safe (srcW ux : Int) (hw : 0 < srcW) (hux : 0 < ux) (fuel : Nat) (vx remain : Int) :
+    (∀ sg ∈ normalLoop srcW ux fuel vx remain, SegSafe srcW ux sg) ∧
+    (remain ≤ fuel → 0 ≤ remain → ((normalLoop srcW ux fuel vx remain).map segNum).sum = remain) := by
+  induction fuel generalizing vx remain with
+  | zero =>
+    refine ⟨fun sg h => by simp [normalLoop] at h, fun h1 h2 => ?_⟩
+    have : remain = 0 := by omega
+    simp [normalLoop, this]
+  | succ f ih =>
+    unfold normalLoop
+    by_cases hr : remain > 0
+    · simp only [hr, if_true]
+      obtain ⟨s1, s2, s3, s4⟩ := normalStep_safe srcW ux vx remain hw hux hr
+      obtain ⟨i1, i2⟩ := ih (normalStep srcW ux vx remain).2.1 (normalStep srcW ux vx remain).2.2
+      refine ⟨?_, fun h1 h2 => ?_⟩
+      · intro sg hsg
+        rcases List.mem_append.1 hsg with h | h
+        · exact s1 sg h
+        · exact i1 sg h
+      · rw [List.map_append, List.sum_append, i2 (by omega) s2]
+        exact s4
+    · rw [if_neg hr]
+      refine ⟨fun sg h => by simp at h, fun h1 h2 => ?_⟩
+      have : remain = 0 := by omega
+      simp [this]
+
+/-- a sample exactly on the last column (fraction 0) and the next one (2x enlargement) go through the wrap
+    buffer; a plain segment starting at column 0 holds 126 pixels -/
+example : wrapNumPixels (64 * 65536) (63 * 65536) 32768 = 2 ∧ plainNumPixels (64 * 65536) 0 32768 = 126 ∧
+    -- half a pixel before the last column: exactly one more pixel belongs to the plain segment (without the
+    -- `- pixman_fixed_e` it would be two, the second one sampling the pair [63], [64])
+    plainNumPixels (64 * 65536) (62 * 65536 + 32768) 32768 = 1 := by decide
+
+end BilinearSplit
 
 end Pixman.Props.C04
